@@ -982,7 +982,7 @@ func (pf *ParserFacts) variableValueGuard(s SlotStore, varVal ssa.Value, req str
 	}
 	// NewVariable(name, NewValueType(const, const), …)
 	if c, ok := varVal.(*ssa.Call); ok {
-		if callee := c.Call.StaticCallee(); callee != nil && callee.Name() == "NewVariable" && len(c.Call.Args) >= 2 {
+		if callee := c.Call.StaticCallee(); callee != nil && isDefinitionCtor(callee, "Variable") && len(c.Call.Args) >= 2 {
 			if vt, ok := c.Call.Args[1].(*ssa.Call); ok {
 				info := pf.classifyVT(vt, 0)
 				if info.kind == "const" && constTypeSatisfies(req, info.dataType, info.slice) {
